@@ -131,6 +131,14 @@ EQUIVALENTS = [
     ('eq-getter-comment-and-else', 'C01', 'src/bucket.rs', '                        _ => return Err(Error::IncompatibleValue),\n                    },', '                        Leaf::Kv(..) => return Err(Error::IncompatibleValue),\n                    },'),
     ('eq-is-freed-match', 'C05', 'src/freelist.rs', '            .map_or(false, |pages| pages.contains(&page_id))', '            .map_or(false, |freed| freed.contains(&page_id))'),
     ('eq-seek-first-while-form', 'C08', 'src/cursor.rs', '            if page_node.leaf() {\n                break;\n            }\n            if page_node.len() == 0 {\n                break;\n            }', '            if page_node.leaf() || page_node.len() == 0 {\n                break;\n            }'),
+    ('eq-txnew-is-empty', 'C03', 'src/tx.rs', '                if open_ro_txs.len() > 0 {', '                if !open_ro_txs.is_empty() {'),
+    ('eq-commit-product-swapped', 'C02', 'src/tx.rs', '            let required_size = self.meta.num_pages * self.db.inner.pagesize;', '            let required_size = self.db.inner.pagesize * self.meta.num_pages;'),
+    ('eq-txfree-no-parens', 'C10', 'src/freelist.rs', '        for id in page_id..(page_id + num_pages) {', '        for id in page_id..page_id + num_pages {'),
+    ('eq-delete-last-by-index', 'C01', 'src/bucket.rs', '    fn delete<\'a, T: AsRef<[u8]>>(&\'a mut self, key: T) -> Result<(Bytes<\'b>, Bytes<\'b>)> {\n        let (exists, stack) = search(key.as_ref(), self.meta.root_page, self);\n        let last = stack.last().unwrap();', '    fn delete<\'a, T: AsRef<[u8]>>(&\'a mut self, key: T) -> Result<(Bytes<\'b>, Bytes<\'b>)> {\n        let (exists, stack) = search(key.as_ref(), self.meta.root_page, self);\n        let last = &stack[stack.len() - 1];'),
+    ('eq-pagesize-checks-swapped', 'C16', 'src/db.rs', '        if pagesize < 1024 {\n            panic!("Pagesize must be 1024 bytes minimum");\n        }\n        // Pages are read in place through references to 8-byte aligned structs,\n        // so every page has to start on an 8-byte boundary.\n        if pagesize % 8 != 0 {\n            panic!("Pagesize must be a multiple of 8 bytes");\n        }', '        if pagesize % 8 != 0 {\n            panic!("Pagesize must be a multiple of 8 bytes");\n        }\n        if pagesize < 1024 {\n            panic!("Pagesize must be 1024 bytes minimum");\n        }'),
+    ('eq-release-early-break-form', 'C10', 'src/freelist.rs', '            if other_tx_id < tx_id {\n                let pages = self.pending_pages.remove(&other_tx_id).unwrap();\n                pages.into_iter().for_each(|p| {\n                    self.free_pages.insert(p);\n                });\n            } else {\n                break;\n            }', '            if other_tx_id >= tx_id {\n                break;\n            }\n            let pages = self.pending_pages.remove(&other_tx_id).unwrap();\n            pages.into_iter().for_each(|p| {\n                self.free_pages.insert(p);\n            });'),
+    ('eq-advance-if-not', 'C08', 'src/cursor.rs', '                    if self.stack.len() == 1 {\n                        return false;\n                    }\n                    self.stack.pop();\n                    continue;', '                    if self.stack.len() != 1 {\n                        self.stack.pop();\n                        continue;\n                    }\n                    return false;'),
+    ('eq-open-lock-binding', 'C13', 'src/db.rs', '        file.lock_exclusive()?;\n', '        let locked = file.lock_exclusive();\n        locked?;\n'),
 ]
 CANARY_EXPECT_NOT_KILLED = set(c[0] for c in EQUIVALENTS)
 CANARIES = CANARIES + EQUIVALENTS
